@@ -17,11 +17,14 @@ concatenation of the lone responses, application-call order, writes never mixed,
 entry, exactly once at quiescence) under seeded random, PCT and bounded-exhaustive schedules,
 and by the theorem predicates evaluated (extracted) on the model states the real traces map to.
 
-Finding F18 (reproduced here on the unchanged tree, replayed by the model): after popping the
-last request the finishing WORKER may call send_continue() -- a locked append + flush -- while
-the I/O thread, having read `requests == []`, is inside the UNLOCKED _flush_some on the same
-buffers: the same chunk is sent twice.  C04_wire is refuted in the model (C04_wire_refuted) and
-proved for every execution without a worker-side send_continue (C04_wire_partial)."""
+Finding F18 (found here, reproduced on the then real tree, replayed by the model; repaired in /repo
+by 8bcf05e): after popping the last request the finishing WORKER may call send_continue() -- a locked
+append + flush -- while the I/O thread, having read `requests == []`, was inside the UNLOCKED
+_flush_some on the same buffers: the same chunk was sent twice.  Since the repair handle_write
+flushes under try-lock in that branch too; the model follows (p_unlocked = false), C04_wire is proved
+at full strength, and the old shape is kept only as C04_wire_refuted_old.  The stored schedule
+(harness.chanpipe.F18_CHOICES) is re-run on every check: on a tree with the old shape it shows the
+duplicate send again (VIOLATION with replay)."""
 import hashlib
 import json
 import os
@@ -36,9 +39,9 @@ ASSUMPTIONS = [
     "the socket does not fail (send accepts 0..len bytes, recv delivers data or EOF): errno paths are C13's; outbuf_high_watermark is larger than the pending output (back-pressure is C12's); maintenance()/cancel() are not modelled",
     "what the parser and the task compute is abstracted: a request is an id with (expect-continue, has-body, write sizes, close_on_finish); the sizes of the write_soon calls are read off the trace",
     "select/trigger over-approximated (select may return with nothing ready); outbuf.get returns a non-empty prefix of the first buffer of environment-chosen length",
+    "output discarded by handle_close (client EOF / close_when_flushed) is accounted as one contiguous cut segment of the produced stream, not as a violation",
 ]
 
-KF_CLASS = "kf_c04_worker_send_continue"
 
 
 def _H():
@@ -132,7 +135,6 @@ def run(ctx):
     conf_ok = [True]
     mon_ok = [True]
     flags_ok = [True]
-    f18_found = [None]
     reported = {}
 
     def report(key, what, rep, kf_class=None, cap=2):
@@ -156,19 +158,15 @@ def run(ctx):
         # the property's monitor on the real run
         bad = H.monitor(w)
         for key, text in bad:
-            if isf18 and key in ("wire", "lost", "lost-output"):
+            mon_ok[0] = False
+            stats["monitor_violations"] += 1
+            if isf18:
                 stats["f18_violations"] += 1
-                if f18_found[0] is None:
-                    f18_found[0] = (name, scn, list(w.sched.choices), text)
-                report("kf-f18", text, replay_dict("monitor", name, scn, w, {
-                    "expected": "wire = concatenation of the lone responses of a prefix of the pipeline (interim responses only before their own response)",
-                    "observed": text, "wire_hex": w.wire.hex()[:600], "class": "a worker thread entered send_continue()"}),
-                    kf_class=KF_CLASS)
-            else:
-                mon_ok[0] = False
-                stats["monitor_violations"] += 1
-                report("monitor:" + key, text, replay_dict("monitor", name, scn, w, {
-                    "expected": "C04 monitor clean", "observed": text, "wire_hex": w.wire.hex()[:600]}))
+            report("monitor:" + key, text, replay_dict("monitor", name, scn, w, {
+                "expected": "C04 monitor clean: wire = concatenation of the lone responses of a prefix of the pipeline "
+                            "(interim responses only directly before their own response), calls in arrival order, one queue entry",
+                "observed": text, "wire_hex": w.wire.hex()[:600],
+                "unlocked_io_flush_overlaps_worker_send_continue": bool(isf18)}))
         # conformance with the model
         try:
             n, mis, flags = H.validate(w, runner)
@@ -180,10 +178,7 @@ def run(ctx):
             pcs.update(flags.get("pcs", ()))
             states.update(flags.get("states", ()))
             # the theorem predicates on the model states the real trace maps to
-            if isf18:
-                okflags = flags.get("rest_ok", True)
-            else:
-                okflags = flags.get("allok", True)
+            okflags = flags.get("allok", True)
             if not okflags:
                 flags_ok[0] = False
                 stats["model_flag_failures"] += 1
@@ -216,19 +211,26 @@ def run(ctx):
             else:
                 one(name, scn, policy=H.RandomPolicy(r, stay=r.choice([0.0, 0.5, 0.9, 0.97])), pk="random")
 
-    # 2. the directed reproduction of F18: the stored schedule first, then a search
+    # 2. regression for F18 (repaired by 8bcf05e): the stored schedule, and PCT/random schedules of the scenario,
+    #    must be clean on this tree; the extracted model must show the duplicate send for the OLD shape of
+    #    handle_write (p_unlocked = 1) and none for the current one under the witness schedule of
+    #    Proof/ChanPipeRefute.v
     f18s = f18_scenario()
+    scns_seen.append(f18s)
     w, bad, mis = one("f18-stored", f18s, schedule=H.F18_CHOICES, pk="stored")
-    reproduced = any(k == "wire" for k, _ in bad) and H.f18_class(w)
-    tries = 0
-    while not reproduced and tries < (4000 if thorough else 600) and time.time() - t0 < budget * 0.5:
+    f18_clean = not bad and mis is None
+    for i in range(60 if thorough else 12):
         r = random.Random(rng.getrandbits(48))
-        pol = H.RandomPolicy(r, stay=0.9) if tries % 2 == 0 else H.PCTPolicy(r, 2, 260)
+        pol = H.RandomPolicy(r, stay=0.9) if i % 2 == 0 else H.PCTPolicy(r, 2, 260)
         w, bad, mis = one("f18-search", f18s, policy=pol, pk="f18-search")
-        reproduced = any(k == "wire" for k, _ in bad) and H.f18_class(w)
-        tries += 1
-    stats["f18_search_tries"] = tries
-
+        f18_clean = f18_clean and not bad and mis is None
+    wit = (["i:-"] * 7 + ["i:s10", "i:-", "i:r2.0"] + ["i:-"] * 17 + ["w0:-"] * 14 + ["w0:n5.0"] + ["w0:-"] * 13
+           + ["i:-", "i:s01", "i:-", "i:-", "i:-", "i:-", "i:n7.7"] + ["w0:-", "w0:n7.7"])
+    ans = runner.query(["raw 0,1,2,1,1 000:5/100:3 " + " ".join(wit), "raw 0,1,2,1,0 000:5/100:3 " + " ".join(wit)])
+    old_last = [f for f in ans[0].split("|") if f != "X"][-1]
+    new_fields = [f for f in ans[1].split("|") if f != "X"]
+    model_old_refuted = old_last.endswith("ok=01111") and "wire=14" in old_last
+    model_new_ok = all(f.endswith("ok=11111") for f in new_fields) and "wire=7" in new_fields[-1]
     # 3. bounded exhaustive exploration of tiny scenarios (iterative pre-emption bounding)
     ex_stats = {}
     for name, scn in tiny_scenarios():
@@ -259,11 +261,14 @@ def run(ctx):
     ctx.oblige("K-chanpipe: every operation of every real trace is a step of Model/ChanPipe.v with the same label "
                "and the same abstract state (%d traces, %d steps)" % (stats["validated_traces"], stats["validated_steps"]),
                conf_ok[0] and stats["validated_traces"] > 0)
-    ctx.oblige("C04 monitor on the real runs: violations only in the class of F18 (a worker-side send_continue)", mon_ok[0])
-    ctx.oblige("the theorem predicates (extracted) hold in every model state reached along the real traces "
-               "(wire predicate exempt in the class of F18)", flags_ok[0])
-    ctx.oblige("F18 reproduced on the real code (duplicate bytes on the wire in the class of the known finding)", reproduced,
-               "no schedule found in %d tries" % tries)
+    ctx.oblige("C04 monitor clean on every real run (wire, call order, never mixed, one queue entry, exactly once at quiescence)", mon_ok[0])
+    ctx.oblige("the theorem predicates (extracted: wire, once, one-at-a-time, one-entry, quiescent) hold in every model "
+               "state reached along the real traces", flags_ok[0])
+    ctx.oblige("F18 regression: the stored schedule and %d more schedules of its scenario are clean on this tree"
+               % (60 if thorough else 12), f18_clean)
+    ctx.oblige("F18 in the extracted model: the witness schedule duplicates the chunk for the old shape of handle_write "
+               "(p_unlocked=1) and not for the current one", model_old_refuted and model_new_ok,
+               "old: %s | new: %s" % (old_last[-60:], new_fields[-1][-60:]))
 
     ctx.coverage.update({
         "rule": "real HTTPChannel/dispatcher/poll traces under the deterministic scheduler mapped step by step to the extracted "
@@ -281,8 +286,8 @@ def run(ctx):
         "scenario_distribution": H.scenario_dist(scns_seen),
         "samples": samples,
         "shape_audit_methods": sorted(list(H.EXPECTED_SHAPE) + list(H.EXPECTED_DISPATCHER_SHAPE)),
-        "f18": {"reproduced": reproduced, "first": None if f18_found[0] is None else
-                {"scenario": f18_found[0][0], "what": f18_found[0][3][:200], "schedule_len": len(f18_found[0][2])}},
+        "f18_regression": {"stored_schedule_clean": f18_clean, "model_old_shape_refuted": model_old_refuted,
+                           "model_current_shape_ok": model_new_ok},
     })
 
 
